@@ -34,7 +34,7 @@ void harness (void)
   int scen = (int) sx_param ("scenario", 0), how = (int) sx_param ("how", 0), with_other = (int) sx_param ("other", 0);
   int conf, k, rc, amb, amb2, rc2, nerr2; long A; struct grammar *g, *other = NULL; struct yaep_tree_node *root, *root2;
   p_setup ();
-  conf = scen == 2 ? sx_choice ("conf", 24) : 0;
+  conf = scen == 2 ? sx_choice ("conf", 24) : scen == 4 ? sx_choice ("la", 3) : 0;
   if (with_other)
     {
       other = yaep_create_grammar (); sx_assume (other != NULL);
@@ -49,6 +49,12 @@ void harness (void)
       g = yaep_create_grammar (); sx_assume (g != NULL);
       if (scen == 1) { sx_fail_alloc_at (-1); define (g, how); A = sx_alloc_count (); }
       else if (scen == 3) { big_n = (int) sx_param ("nterm", 70); sx_fail_alloc_at (-1); sx_assume (define_big (g) == 0); A = sx_alloc_count (); }
+      else if (scen == 4)
+        { /* parse with a grammar whose tables outgrow the initial segments of the object stacks at once */
+          big_n = (int) sx_param ("nterm", 70); sx_assume (define_big (g) == 0);
+          p_n = 1; p_sym[0] = 0; p_code[0] = 10; p_attr[0] = 5;
+          sx_fail_alloc_at (-1); run_parse (g, &root, &amb); A = sx_alloc_count ();
+        }
       else { sx_assume (define (g, 0) == 0); configure (g, conf); sx_fail_alloc_at (-1); run_parse (g, &root, &amb); A = sx_alloc_count (); }
       yaep_free_grammar (g);
     }
@@ -78,7 +84,8 @@ void harness (void)
         }
       else
         {
-          sx_assume (define (g, 0) == 0); configure (g, conf);
+          if (scen == 4) sx_assume (define_big (g) == 0); else sx_assume (define (g, 0) == 0);
+          configure (g, conf);
           sx_fail_alloc_at (k);
           rc = run_parse (g, &root, &amb);
           sx_fail_alloc_at (-1);
